@@ -158,7 +158,7 @@ def minus_can_have_disjoint_domain(group, depth=0):
 def gen_case(rng):
     gen = Q.Gen(rng, dataset=False, rich=rng.random() < 0.3)
     where = gen.group()
-    pool_o = Q.IRIS + Q.INTS + Q.STRS
+    pool_o = Q.IRIS + Q.INTS + Q.STRS + [Literal("UNDEF")]      # a term spelled like the keyword
     triples = sorted({(rng.choice(Q.IRIS), rng.choice(Q.PREDS), rng.choice(pool_o)) for _ in range(rng.randint(5, 14))}, key=str)
     triples2 = sorted({(rng.choice(Q.IRIS), rng.choice(Q.PREDS), rng.choice(pool_o)) for _ in range(rng.randint(3, 10))}, key=str)
     k = rng.random()
@@ -168,6 +168,9 @@ def gen_case(rng):
     elif k < 0.25:
         extra = "SELECT ?s (COUNT(?o) AS ?n) (MIN(?o) AS ?m) WHERE { ?s <urn:e:%s> ?o } GROUP BY ?s" % rng.choice("pq")
     extra2 = None
+    if 0.33 <= k < 0.40:
+        # several ORDER BY keys whose priority decides what a LIMIT keeps (for the prepared-query relation: every evaluation must sort alike)
+        extra = "SELECT ?s ?o WHERE { ?s <urn:e:%s> ?o } ORDER BY %s LIMIT %d" % (rng.choice("pq"), rng.choice(["?s DESC(?o)", "DESC(?s) ?o", "?o ?s", "DESC(?o) DESC(?s)"]), rng.choice([1, 2, 3]))
     if 0.25 <= k < 0.33:
         # a sub-select with a slice as a join operand, written first or second: the slice applies to the sub-select once, not per joined row
         # only ?s is projected and ordered on: rows that tie are identical, so the slice is determined
@@ -191,7 +194,7 @@ def run_case(case, st=None):
     where = case["where"]
     rel = case["rel"]
     if case.get("text") and rel in ("perm", "swap", "rename", "init"):
-        rel = "store"
+        rel = "prep" if "ORDER BY" in case["text"] and "LIMIT" in case["text"] and not case.get("text2") else "store"
     text = case.get("text") or query_text(where)
     g = build(triples)
     try:
@@ -270,7 +273,9 @@ def run_case(case, st=None):
             v = rng.choice(falsy_c) if falsy_c and rng.random() < 0.6 else rng.choice(cands)
             vals = values_of(v)
             fv = [kv for kv in vals if isinstance(kv[1], Literal) and not kv[1]]
-            if fv and rng.random() < 0.6: vals = fv
+            kw_ = [kv for kv in vals if str(kv[1]) == "UNDEF"]
+            if kw_ and rng.random() < 0.5: vals = kw_          # a value spelled like the VALUES keyword
+            elif fv and rng.random() < 0.6: vals = fv
             term = vals[rng.randrange(len(vals))][1] if vals and rng.random() < 0.8 else rng.choice([URIRef("urn:e:absent"), Literal(False), Literal("")])
             st["_count"] = dict(st.get("_count", {}), **({"init_falsy_term": 1} if (isinstance(term, Literal) and not term) else {}))
             if isinstance(term, BNode): return None
